@@ -132,9 +132,9 @@ class ShapeRun:
             return False  # everything below would be noise
 
         # (2) wiring of every instance: references, arguments, predecessors.  ALL instances 0..k are
-        # re-read at the checkpoints (k <= 3, 9..12, every 5th, K) - a later iteration must not disturb
+        # re-read at the checkpoints (every k <= 12, then every 3rd, and K) - a later iteration must not disturb
         # older instances - in between only the instances of the two newest iterations are re-read.
-        full = k <= 3 or 9 <= k <= 12 or k % 5 == 0 or k == self.shape["K"]
+        full = k <= 12 or k % 3 == 0 or k == self.shape["K"]
         w.count("wiring_full_sweeps" if full else "wiring_newest_only_sweeps")
         for c in t.body:
             nm = c["name"]
@@ -375,7 +375,7 @@ if "--worker" in sys.argv:
 
 def main():
     tier = vlib.tier()
-    K, n_shapes = (12, 64) if tier == "quick" else (30, 320)
+    K, n_shapes = (12, 64) if tier == "quick" else (30, 304)
     c = vlib.Check(PROP, "exploration",
                    rule="one case = one generated DoWhile package shape unrolled to K further iterations with the "
                         "oracle evaluated after EVERY iteration; distinct = distinct structural classes (import stage, "
@@ -404,7 +404,7 @@ def main():
                                            "still violates" if (c.violations or c.known_seen) else "no longer violates"))
         sys.exit(c.finish())
 
-    per = 2 if tier == "quick" else 5
+    per = 2 if tier == "quick" else 4
     idxs = list(range(n_shapes))
     jobs = [{"indices": idxs[i:i + per], "K": K} for i in range(0, len(idxs), per)]
     vlib.fanout("checks.C05", jobs, c, timeout=600 if tier == "quick" else 1500)
